@@ -3,4 +3,5 @@ package ioutil
 
 import "crsim/simos"
 
+//go:norace
 func ReadFile(name string) ([]byte, error) { return simos.ReadFile(name) }
